@@ -39,7 +39,7 @@ ASSUMPTIONS = [
 ]
 REQUIRED = {"all": ["figures", "saved_files", "getfig_returns", "phase_markers_checked", "uversky_markers_checked",
                     "multi_marker_figures", "labels_checked", "limits_below_one", "region_points_checked",
-                    "linear_bar_figures", "long_linear_plots", "net_negative_uversky_saves", "complexity_bar_figures", "numpy_coordinate_arguments"]}
+                    "linear_bar_figures", "long_linear_plots", "net_negative_uversky_saves", "complexity_bar_figures", "numpy_coordinate_arguments", "coincident_markers"]}
 NFIG = {"quick": 640, "thorough": 4000}
 NMAX = {"quick": 40, "thorough": 90}
 LIMS = [1, 1, 0.5, 0.8, 2]
@@ -318,6 +318,9 @@ def judge_figure(case, rep, S):
         n = 1 if family == "mod_single" else rng.randint(1, 5)
         label, kw = rand_args(rng, None if family == "mod_single" else n)
         objs = [SP(gen.rand_seq(rng, lo=5, hi=40)) for _ in range(n)]
+        if family == "mod_multi2" and n >= 2 and rng.random() < 0.3:
+            objs[-1] = SP(gen.permute(rng, objs[0].get_sequence()))       # same composition: identical coordinates
+            rep.cnt("coincident_markers")
         if family == "mod_multi2":
             if kind == "phase":
                 coords = [(q.get_fraction_positive(), q.get_fraction_negative()) for q in objs]
@@ -329,6 +332,9 @@ def judge_figure(case, rep, S):
                 x = round(rng.random(), 3)
                 y = round(rng.random() * (1 - x), 3) if kind == "phase" else round(rng.random(), 3)
                 coords.append((x, y))
+            if n >= 2 and rng.random() < 0.3:
+                coords[-1] = coords[0]              # two sequences at the very same point (e.g. a shuffle of the first)
+                rep.cnt("coincident_markers")
         if kind == "phase":
             xs, ys = [c[0] for c in coords], [c[1] for c in coords]           # fp, fn
         else:
@@ -368,8 +374,10 @@ def judge_figure(case, rep, S):
 
     if family == "linear":
         which = rng.choice(["NCPR", "FCR", "Sigma", "Hydropathy"])
-        if rng.random() < 0.25:
+        if rng.random() < 0.35:
             seq = gen.rand_seq(rng, "idp", lo=200, hi=320)
+            if rng.random() < 0.5:
+                which = "NCPR"
             if rng.random() < 0.5:
                 seq = (seq * 2)[:rng.choice([219, 220, 221, 250])]
             rep.cnt("long_linear_plots")
